@@ -227,13 +227,33 @@ def run_inproc(src: Path, out: Path, opts: Opts, keep_out: bool = False) -> Obs:
     return obs
 
 
+RUN_LIMIT_S = int(os.environ.get("VERIF_RUN_LIMIT_S", "600"))
+
+
+class _RunTimeout(BaseException):
+    pass
+
+
 def job_run_files(files: dict[str, str], src_rel: str, opts: Opts) -> Obs:
-    """Pool job: write a source tree, run the pipeline on <tree>/<src_rel>, clean up."""
+    """Pool job: write a source tree, run the pipeline on <tree>/<src_rel>, clean up.  A run that exceeds RUN_LIMIT_S is
+    interrupted by SIGALRM (pool workers are single-threaded main threads) and reported with outcome 'timeout'."""
+    import signal
+
     d = fresh_dir("j")
+
+    def on_alarm(signum, frame):  # noqa: ARG001
+        raise _RunTimeout
+
+    old = signal.signal(signal.SIGALRM, on_alarm)
+    signal.alarm(RUN_LIMIT_S)
     try:
         write_tree(d / "in", files)
         return run_inproc(d / "in" / src_rel, d / "out", opts)
+    except _RunTimeout:
+        return Obs("timeout", "Timeout", f"run exceeded {RUN_LIMIT_S}s", wall=float(RUN_LIMIT_S))
     finally:
+        signal.alarm(0)
+        signal.signal(signal.SIGALRM, old)
         shutil.rmtree(d, ignore_errors=True)
 
 
